@@ -39,7 +39,7 @@ def live_invariant(d, op):
     orders = list(blotter)
     # shadow of every order object this framework instance has had in the market's blotter: none ever leaves it and
     # the lookups keep returning the very object
-    seen = d.__dict__.setdefault("_seen", {}).setdefault(id(d.lab), {})
+    seen = d.lab.__dict__.setdefault("_seen_orders", {})  # per framework instance (kept on the instance: ids are recycled)
     for o in orders:
         seen.setdefault(o.id, o)
     for oid, o in seen.items():
